@@ -471,7 +471,11 @@ func c19Fidelity(c *core.Ctx, r *rng.R) *core.Result {
 			if x.style != fmt.Sprintf("Heading%d", lvl) {
 				res.Add("fidelity/heading-style", fmt.Sprintf("heading level %d text %s sits in a paragraph with style %q", lvl, t.tok, x.style), optNote, src)
 			}
-			continue // run formatting of headings comes from the heading style
+			// bold/italic of heading text may come from the heading style; what the inline markup asks for has to be there
+			if (t.em && !x.italic) || (t.strong && !x.bold) || (t.strike && !x.strike) || (t.code && !x.code) {
+				res.Add("fidelity/format/heading-inline-format-lost"+nestedCls(t), fmt.Sprintf("heading text %s (em=%v strong=%v strike=%v code=%v) is carried by a run with bold=%v italic=%v strike=%v code=%v", t.tok, t.em, t.strong, t.strike, t.code, x.bold, x.italic, x.strike, x.code), optNote, src)
+			}
+			continue
 		}
 		if t.block == "cell" || t.block == "codeblock" {
 			continue // cell formatting is outside the statement (dimensions, text, alignment); code lines are compared below
@@ -743,7 +747,7 @@ func init() {
 			}
 			return c19Totality(c, r)
 		},
-		Assume:         []string{"whitespace, list glyphs and check-box glyphs the renderer adds, URLs of links, formula display conversion and block structure of nested list items are not compared", "run formatting inside table cells and of heading text is not compared (cells: dimensions, text and alignment; headings: the style)"},
+		Assume:         []string{"whitespace, list glyphs and check-box glyphs the renderer adds, URLs of links, formula display conversion and block structure of nested list items are not compared", "run formatting inside table cells is not compared (cells: dimensions, text and alignment); heading text must carry the formats its inline markup asks for, additional bold/italic from the heading style is accepted"},
 		CrashIsFinding: true,
 		CaseTimeoutS:   30,
 		MinNontrivial:  500,
